@@ -16,6 +16,7 @@ import (
 	"google.golang.org/grpc/credentials/insecure"
 	"google.golang.org/grpc/metadata"
 
+	errorsAdapter "github.com/glebziz/fs_db/internal/adapter/errors"
 	"github.com/glebziz/fs_db/internal/app"
 	"github.com/glebziz/fs_db/internal/di"
 	store "github.com/glebziz/fs_db/internal/proto"
@@ -136,6 +137,26 @@ func Open(spec dbh.Spec) (*dbh.Inst, error) {
 	in.CloseFn = func() error {
 		db.Close()
 		return srv.Stop()
+	}
+	in.RawTx = func(commit bool, txId string, named bool) error {
+		cl, conn, err := Raw(srv.Addr)
+		if err != nil {
+			return err
+		}
+		defer conn.Close()
+		ctx := context.Background()
+		if named {
+			ctx = UnknownCtx(ctx, txId)
+		}
+		if commit {
+			_, err = cl.CommitTx(ctx, &store.CommitTxRequest{})
+		} else {
+			_, err = cl.RollbackTx(ctx, &store.RollbackTxRequest{})
+		}
+		if err != nil {
+			return errorsAdapter.ClientError(err)
+		}
+		return nil
 	}
 	return in, nil
 }
